@@ -1,5 +1,5 @@
 """Single source of truth for MANIFEST.json (bin/mkmanifest)."""
-HOOK_COMMITS = ["66e123d44"]   # tools::Mutex / tools::Thread yield points
+HOOK_COMMITS = ["66e123d44", "a77628d66"]   # tools::Mutex/Thread yield points; ProgObserver/WRITE_JOBS job-file protocol events
 NOTES = ("Every check is `bin/vcheck <id> --tier quick|thorough`: TLC model-checks the TLA+ specification in "
          "spec/<engine>, exports behaviours/vectors, a C++ driver replays them into the real votca code built "
          "from /repo's working tree (and/or traces recorded from the real code are validated by TLC). Exit 2 = "
@@ -12,4 +12,4 @@ NOT_APPLICABLE = {
 CHECKS = {}   # filled by bin/mkmanifest from engines/<id>.py: MANIFEST
 
 # engines that are finished and reviewed; only these are registered in MANIFEST.json
-ENABLED = ["C01", "C02", "C03", "C04", "C05", "C07", "C08", "C11", "C12", "C13", "C14", "C18", "C19", "C20"]
+ENABLED = ["C01", "C02", "C03", "C04", "C05", "C07", "C08", "C10", "C11", "C12", "C13", "C14", "C16", "C18", "C19", "C20"]
